@@ -78,16 +78,21 @@ def check(ck: Checker) -> None:
                "a key is passed over silently only if both entries are None or it is UNCHANGED without with_unchanged",
                "a key can be dropped from the diff although an entry exists and it is not an unrequested UNCHANGED",
                witness=g.fmt_path(g.path_to(r, h.id)) if bad else None, construct="per-key loop / silent paths")
-    # the silent UNCHANGED path is really guarded by typ == UNCHANGED
-    for t in g.nodes.values():
-        if t.kind == "test" and isinstance(t.ast, ast.Name) and t.ast.id == "with_unchanged" and h.id in t.loops:
-            # find continue reached from its F edge
-            rr = g.reach([d for lab, d in t.succ if lab == "F"], skip_node=lambda x: x.id in ynodes)
-            if h.id in rr:
-                w = cut(g, [t.id], lambda tt, lab: tt.kind == "test" and norm(tt.ast) in ("typ == UNCHANGED", "UNCHANGED == typ") and lab == "T", start=h.id)
-                # only the test that leads to the silent continue matters (the one after the yield decision)
-                if not any(_is_dir_atom(x) for x in g.nodes.values() if x.id in g.reach([t.id], skip_node=lambda y: y.id == h.id) and x.id != t.id):
-                    ck.require(w is None, "C08.once", fn, t, "suppression of a change requires typ == UNCHANGED", "a change that is not UNCHANGED can be suppressed by with_unchanged=False", witness=g.fmt_path(w) if w else None)
+    # the silent UNCHANGED path is really guarded by typ == UNCHANGED (in either order with the with_unchanged test)
+    from ..an import eq_edge as _eq
+
+    def silent_ok2(a, lab, b):
+        if lab == "exc":
+            return True
+        e = a.ast
+        if a.kind == "test" and isinstance(e, ast.Compare) and len(e.ops) == 1 and isinstance(e.ops[0], ast.Is) and norm(e.left) == "new_entry" and lab == "T":
+            return True
+        return a.kind == "test" and _eq(a, lab, "typ", "UNCHANGED") is True
+
+    r2 = g.reach(starts, skip_node=lambda x: x.id in ynodes, skip_edge=silent_ok2)
+    bad2 = h.id in r2
+    ck.require(not bad2, "C08.once", fn, h, "suppression of a change requires typ == UNCHANGED", "a change that is not UNCHANGED can be suppressed by with_unchanged=False",
+               witness=g.fmt_path(g.path_to(r2, h.id)) if bad2 else None, construct="with_unchanged")
 
     # ------------------------------------------------------- shortcut/descent
     # the work queue: the container popped at the top of the outer loop
